@@ -179,14 +179,21 @@ class BoomBase(BaseException):     # not an Exception subclass (like KeyboardInt
 # ---- op execution -----------------------------------------------------------------------
 
 class World:
-    def __init__(self, latency=None, k=0, shared=None):
+    def __init__(self, latency=None, k=0, shared=None, config=None):
         s = self.srv = SERVERS[k]
         self.k = k
         # a history must not inherit a server address that an earlier history failed to restore
         guard = 0
         while type(s._addr).__name__ == 'BundleNetAddr' and guard < 1000:
             s._addr = s._addr._save_addr; guard += 1
-        s._set_client_id(0)       # new node / bus / buffer allocators, default groups
+        # login configuration: number of logins the server allows, the client id it handed out, reserved ids
+        cfg = config or {}
+        s.options.max_logins = cfg.get('max_logins', 1)
+        s._status_watcher._max_logins = cfg.get('max_logins', 1)
+        s.options.reserved_buffers = cfg.get('reserved_buffers', 0)
+        s.options.reserved_control_buses = cfg.get('reserved_control_buses', 0)
+        s.options.reserved_audio_buses = cfg.get('reserved_audio_buses', 0)
+        s._set_client_id(cfg.get('client_id', 0))       # new node / bus / buffer allocators, default groups
         Buffer._server_caches.pop(s, None)
         s.latency = DEFAULT_LATENCY if latency is None else float(Fraction(latency))
         self.passed = []          # mutable argument objects handed to the library by the current op
@@ -462,16 +469,17 @@ def exc_name(e):
     return type(e).__name__
 
 
-def run_history(ops, latency=None):
+def run_history(ops, latency=None, config=None):
     multi = any('srv' in op for op in ops)
     if multi:
         # several servers in one history: op['srv'] names the server the op addresses; latency = one value per server
         lats = latency if isinstance(latency, list) else [latency] * len(SERVERS)
-        w0 = World(lats[0], 0, shared=None)
+        cfgs = config if isinstance(config, list) else [config] * len(SERVERS)
+        w0 = World(lats[0], 0, shared=None, config=cfgs[0])
         w0.tag = True
-        worlds = [w0] + [World(lats[k], k, shared=w0) for k in range(1, len(SERVERS))]
+        worlds = [w0] + [World(lats[k], k, shared=w0, config=cfgs[k]) for k in range(1, len(SERVERS))]
     else:
-        worlds = [World(latency)]
+        worlds = [World(latency, config=config)]
     w = worlds[0]
     steps = [None] * len(ops)
     n = len(ops)
@@ -556,6 +564,9 @@ def run_history(ops, latency=None):
             'node_servers': [None if x is None else SERVERS.index(x.server) for x in wk.nodes],
             'buf_servers': [None if b is None else SERVERS.index(b.server) for b in wk.bufs],
             'bus_servers': [None if u is None else SERVERS.index(u.server) for u in wk.buses],
+            'default_group': sv.default_group.node_id,
+            'default_groups': [g.node_id for g in sv._default_groups],
+            'client_id': sv.client_id,
         }
         if sv.addr is not sv._addr or type(sv.addr).__name__ != 'NetAddr':
             final['addr_not_restored'] = type(sv.addr).__name__
@@ -573,8 +584,9 @@ def main_():
     payload = json.load(open(sys.argv[1]))
     out = []
     lats = payload.get('latencies') or [None] * len(payload['histories'])
+    cfgs = payload.get('configs') or [None] * len(payload['histories'])
     hits = 0
-    for ops, lat in zip(payload['histories'], lats):
+    for ops, lat, cfg in zip(payload['histories'], lats, cfgs):
         LOG.clear()
         _T0[1] = _time.time()
         _CNT[0] = 0
@@ -587,7 +599,7 @@ def main_():
             except (ValueError, OSError):
                 pass
             try:
-                out.append(run_history(ops, lat))
+                out.append(run_history(ops, lat, cfg))
             finally:
                 try:
                     signal.setitimer(signal.ITIMER_REAL, 0)
